@@ -120,8 +120,9 @@ def detect(sid, tier="quick", props=None):
     return 0
 
 
-def table():
+def table(out=None):
     rows = []
+    per = {}
     for sid in sorted(os.listdir(SEEDED)):
         mp = os.path.join(SEEDED, sid, "meta.json")
         if not os.path.exists(mp):
@@ -130,12 +131,46 @@ def table():
         dp = os.path.join(SEEDED, sid, "detect.json")
         det = json.load(open(dp)) if os.path.exists(dp) else {}
         cells = []
+        caught_by = []
         for p, tiers in sorted(det.items()):
             for t, v in sorted(tiers.items()):
                 cells.append("%s/%s:%s" % (p, t, "CAUGHT" if v["detected"] else "missed"))
-        rows.append("| %s | %s | %s | %s |" % (sid, meta["property"], "; ".join(cells) or "-", meta.get("breaks", "")[:110].replace("|", "/")))
-    print("| seeded change | property | checks | what it breaks |\n|---|---|---|---|")
-    print("\n".join(rows))
+                if v["detected"] and p not in caught_by:
+                    caught_by.append(p)
+        st = per.setdefault(meta["property"], {"n": 0, "caught": 0, "own": 0, "other": []})
+        st["n"] += 1
+        if caught_by:
+            st["caught"] += 1
+        if meta["property"] in caught_by:
+            st["own"] += 1
+        elif caught_by:
+            st["other"].append("%s by %s" % (sid, "+".join(caught_by)))
+        rows.append("| %s | %s | %s | %s |" % (sid, meta["property"], "; ".join(cells) or "-", " ".join(meta.get("breaks", "").split())[:160].replace("|", "/")))
+    lines = ["| seeded change | property | checks (tier: verdict) | what it breaks |", "|---|---|---|---|"] + rows
+    summ = ["| property | seeded changes | caught | caught by the property's own check | caught only by another check |", "|---|---|---|---|---|"]
+    for p in sorted(per):
+        st = per[p]
+        summ.append("| %s | %d | %d | %d | %s |" % (p, st["n"], st["caught"], st["own"], "; ".join(st["other"]) or "-"))
+    tot = sum(st["n"] for st in per.values())
+    totc = sum(st["caught"] for st in per.values())
+    summ.append("| all | %d | %d | | |" % (tot, totc))
+    if out:
+        with open(out, "w") as f:
+            f.write("# Seeded changes and the checks that catch them\n\n")
+            f.write("Generated by `python3 tools_seeded.py table SEEDED.md` from `seeded/*/meta.json` and `seeded/*/detect.json` ")
+            f.write("(each detect.json holds exit code, signatures and wall time of the last `tools_seeded.py detect` run of that entry).\n\n")
+            f.write("## Per property\n\n" + "\n".join(summ) + "\n\n## Per change\n\n" + "\n".join(lines) + "\n")
+        print("%s: %d entries, %d caught" % (out, tot, totc))
+        dp = os.path.join(ROOT, "DESIGN.md")
+        d = open(dp).read()
+        b, e = "<!-- seeded-summary:begin -->", "<!-- seeded-summary:end -->"
+        if b in d and e in d:
+            d = d[:d.index(b) + len(b)] + "\n" + "\n".join(summ) + "\n" + d[d.index(e):]
+            open(dp, "w").write(d)
+    else:
+        print("\n".join(summ))
+        print()
+        print("\n".join(lines))
 
 
 if __name__ == "__main__":
@@ -146,4 +181,4 @@ if __name__ == "__main__":
         tier = sys.argv[3] if len(sys.argv) > 3 else "quick"
         sys.exit(detect(sys.argv[2], tier, sys.argv[4:] or None))
     if cmd == "table":
-        table()
+        table(sys.argv[2] if len(sys.argv) > 2 else None)
